@@ -382,8 +382,11 @@ def sweep(run, tier, rng):
         ess_ratio = rng.choice([0.5, 1.0, 2.0, 3.0, 0.37, 0.29, 1.7, 2.45])
         vv = rng.choice([None, None, 0.1, 0.5, 1.0])
         synth_kind = rng.choice([None, None, "noise", "decreasing", "bumpy", "cliff"])
-        st, betas = build(rng, T, n_particles)
+        # every 7th pool is extremely peaked (log-likelihood range 1e6): the ESS-limited step is below the search resolution
+        st, betas = build(rng, T, n_particles, spread=1e6 if t % 7 == 6 else 5.0)
         bp = rng.choice([betas[-1], 0.0, rng.random(), 1.0, 0.9999, 1 - 5e-5])
+        if t % 7 == 6:
+            ess_ratio, bp = rng.choice([0.5, 0.37]), rng.choice([0.0, betas[-1]])
         st.set_current("beta", float(bp))
         st.set_current("iter", T)
         synth = SynthOracle(rng, T * n_particles, synth_kind) if synth_kind else None
